@@ -20,7 +20,7 @@ WATCHDOG = {"quick": 900, "thorough": 3000}
 REQUIRED_CLASSES = {t: ["curve:P_RAM", "curve:P_RAJ", "curve:P_RAJ_endurance_value_updated", "curve:calc_N_with_explicit_limit_then_default", "table_index:labels_repeat(concatenated_passes)",
                         "table_index:labelled_by_pass", "table_index:multiindex", "pram:S_m<0", "pram:S_m>=0", "pram:negative_product",
                         "table:half_hystereses", "table:early_failure", "table:no_pass1_rows", "table:below_endurance_rows",
-                        "table:zero_damage_pass2", "beta:P_A<=0.5", "gamma:normal", "gamma:lognormal", "gamma:blanket",
+                        "table:zero_damage_pass2", "beta:P_A<=0.5", "beta:P_A<1e-9", "gamma:normal", "gamma:lognormal", "gamma:blanket",
                         "gamma:P_L=2.5", "gamma:P_L=50"]
                     for t in ("quick", "thorough")}
 REQUIRED_MONITORS = ["curve:continuous_at_1e3", "curve:continuous_at_endurance_knee", "curve:strictly_decreasing",
@@ -72,7 +72,8 @@ def generate(ctx):
                      d_2=float(-rng.uniform(0.05, 0.6)))
         if kind == "beta":
             r = rng.random()
-            c["P_A"] = (float(rng.uniform(1e-9, 0.5)) if r < 0.4 else float(10 ** rng.uniform(-9, math.log10(0.5))) if r < 0.6
+            c["P_A"] = (float(rng.uniform(1e-9, 0.5)) if r < 0.3 else float(10 ** rng.uniform(-9, math.log10(0.5))) if r < 0.5
+                        else float(10 ** rng.uniform(-300, -9)) if r < 0.65          # the far tail: (0, 0.5] has no lower end
                         else float(rng.uniform(0.45, 0.5)) if r < 0.95 else 0.5)
         yield c
 
@@ -294,7 +295,10 @@ def _beta(case, ctx, rng):
                  tags=["c09_beta_root_search_not_converged"], detail={"P_A": PA})
         return
     exp = -float(norm.ppf(PA))
-    ctx.check("beta==-norm.ppf(P_A)", abs(got - exp) <= 1e-6 * max(1.0, abs(exp)), observed=got, expected=exp, detail={"P_A": PA})
+    if PA < 1e-9:
+        ctx.tag("beta:P_A<1e-9")
+    # closed form since fa97428: the quantile function itself, to rounding
+    ctx.check("beta==-norm.ppf(P_A)", abs(got - exp) <= 1e-12 * max(1.0, abs(exp)), observed=got, expected=exp, detail={"P_A": PA})
 
 
 def _gamma(case, ctx, rng):
